@@ -1,4 +1,4 @@
-SPECIFICATION Spec
+SPECIFICATION SpecBounded
 CONSTANTS
   Users = {"u1", "u2"}
   Tokens = {"btc", "eth"}
@@ -16,15 +16,14 @@ CONSTANTS
   Amts = {2, 4}
   Mins = {0, 1}
   Liqs = {2}
-  Donations = {1}
-  DlOffs = {0, 1}
+  Donations = {}
+  DlOffs = {1}
   MaxNow = 1
   Senders = {"u1", "u2"}
   Recipients = {"u1", "u2", "feepool"}
   MaxSteps = 5
-  WithUni = TRUE
-VIEW View
-CONSTRAINT DepthConstraint
+  WithUni = FALSE
+VIEW ViewDepth
 INVARIANTS
   Inv_C02_Conservation
 PROPERTIES
